@@ -30,6 +30,7 @@ package main
 import (
 	"fmt"
 	"go/ast"
+	"go/constant"
 	"go/token"
 	"go/types"
 
@@ -508,8 +509,443 @@ func sroaPackage(pk *pkgView, known map[string]bool) (int, []string) {
 		for _, d := range f.Decls {
 			if fd, ok := d.(*ast.FuncDecl); ok && fd.Body != nil {
 				total += in.sroaFunc(fd, f)
+				total += in.sroaArrays(fd, f)
 			}
 		}
 	}
 	return total, in.log
+}
+
+// ---- small local arrays -----------------------------------------------------------
+
+// smallArray: t is an array type [N]T with 1 <= N <= 8.
+func smallArray(t types.Type) (*types.Array, bool) {
+	if t == nil {
+		return nil, false
+	}
+	a, ok := t.Underlying().(*types.Array)
+	if !ok || a.Len() < 1 || a.Len() > 8 {
+		return nil, false
+	}
+	return a, true
+}
+
+type arrVar struct {
+	obj  types.Object
+	arr  *types.Array
+	lit  *ast.CompositeLit // nil for `var x [N]T`
+	stmt ast.Stmt
+	idx  int
+	bad  bool
+	pfx  string
+}
+
+// sroaArrays splits local arrays `x := [N]T{...}` / `var x [N]T` (N <= 8)
+// that are only used as x[<constant>] or len(x) into one variable per element.
+func (in *inliner) sroaArrays(fd *ast.FuncDecl, file *ast.File) int {
+	info := in.pkg.TypesInfo
+	vars := map[types.Object]*arrVar{}
+	astutil.Apply(fd.Body, func(c *astutil.Cursor) bool {
+		if _, isLit := c.Node().(*ast.FuncLit); isLit {
+			return false
+		}
+		if c.Index() < 0 {
+			return true
+		}
+		switch x := c.Node().(type) {
+		case *ast.AssignStmt:
+			if x.Tok != token.DEFINE || len(x.Lhs) != len(x.Rhs) {
+				return true
+			}
+			for i := range x.Lhs {
+				id, ok := x.Lhs[i].(*ast.Ident)
+				lit, ok2 := stripParens(x.Rhs[i]).(*ast.CompositeLit)
+				if !ok || !ok2 || id.Name == "_" || info.Defs[id] == nil {
+					continue
+				}
+				arr, ok := smallArray(info.Defs[id].Type())
+				if !ok {
+					continue
+				}
+				if _, tok := in.typeExpr(arr.Elem(), file); !tok {
+					continue
+				}
+				good := int64(len(lit.Elts)) <= arr.Len()
+				for _, e := range lit.Elts {
+					if _, isKV := e.(*ast.KeyValueExpr); isKV {
+						good = false
+					}
+				}
+				if good {
+					vars[info.Defs[id]] = &arrVar{obj: info.Defs[id], arr: arr, lit: lit, stmt: x, idx: i}
+				}
+			}
+		case *ast.DeclStmt:
+			gd, ok := x.Decl.(*ast.GenDecl)
+			if !ok || gd.Tok != token.VAR || len(gd.Specs) != 1 {
+				return true
+			}
+			vs, ok := gd.Specs[0].(*ast.ValueSpec)
+			if !ok || len(vs.Names) != 1 || len(vs.Values) != 0 || vs.Names[0].Name == "_" || info.Defs[vs.Names[0]] == nil {
+				return true
+			}
+			obj := info.Defs[vs.Names[0]]
+			if arr, ok := smallArray(obj.Type()); ok {
+				if _, tok := in.typeExpr(arr.Elem(), file); tok {
+					vars[obj] = &arrVar{obj: obj, arr: arr, stmt: x}
+				}
+			}
+		}
+		return true
+	}, nil)
+	if len(vars) == 0 {
+		return 0
+	}
+	// uses
+	constIndex := func(e ast.Expr, n int64) (int64, bool) {
+		tv, ok := info.Types[e]
+		if !ok || tv.Value == nil {
+			return 0, false
+		}
+		k, exact := constantInt64(tv)
+		if !exact || k < 0 || k >= n {
+			return 0, false
+		}
+		return k, true
+	}
+	blankUse := map[*ast.Ident]bool{}
+	var stack []ast.Node
+	inLit := 0
+	ast.Inspect(fd.Body, func(n ast.Node) bool {
+		if n == nil {
+			if _, ok := stack[len(stack)-1].(*ast.FuncLit); ok {
+				inLit--
+			}
+			stack = stack[:len(stack)-1]
+			return true
+		}
+		if _, ok := n.(*ast.FuncLit); ok {
+			inLit++
+		}
+		if id, ok := n.(*ast.Ident); ok {
+			if v := vars[info.Uses[id]]; v != nil {
+				good := false
+				if inLit == 0 && len(stack) > 0 {
+					switch p := stack[len(stack)-1].(type) {
+					case *ast.IndexExpr:
+						if p.X == ast.Expr(id) {
+							if _, ok := constIndex(p.Index, v.arr.Len()); ok {
+								good = true
+							}
+						}
+					case *ast.CallExpr:
+						if f, ok := p.Fun.(*ast.Ident); ok && f.Name == "len" && len(p.Args) == 1 && p.Args[0] == ast.Expr(id) {
+							if _, isB := info.Uses[f].(*types.Builtin); isB {
+								good = true
+							}
+						}
+					case *ast.AssignStmt:
+						if p.Tok == token.ASSIGN && len(p.Lhs) == len(p.Rhs) {
+							for i := range p.Rhs {
+								if p.Rhs[i] == ast.Expr(id) {
+									if l, ok := p.Lhs[i].(*ast.Ident); ok && l.Name == "_" {
+										good = true
+										blankUse[id] = true
+									}
+								}
+							}
+						}
+					}
+				}
+				if !good {
+					v.bad = true
+				}
+			}
+		}
+		stack = append(stack, n)
+		return true
+	})
+	n := 0
+	for _, v := range vars {
+		if !v.bad {
+			n++
+			in.seq++
+			v.pfx = fmt.Sprintf("__sr%d_%s_", in.seq, v.obj.Name())
+		}
+	}
+	if n == 0 {
+		return 0
+	}
+	elem := func(v *arrVar, k int64) *ast.Ident { return ident(fmt.Sprintf("%s%d", v.pfx, k)) }
+	// element accesses and len
+	astutil.Apply(fd.Body, func(c *astutil.Cursor) bool {
+		switch x := c.Node().(type) {
+		case *ast.IndexExpr:
+			if id, ok := x.X.(*ast.Ident); ok {
+				if v := vars[info.Uses[id]]; v != nil && !v.bad {
+					k, _ := constIndex(x.Index, v.arr.Len())
+					c.Replace(elem(v, k))
+					return false
+				}
+			}
+		case *ast.CallExpr:
+			if f, ok := x.Fun.(*ast.Ident); ok && f.Name == "len" && len(x.Args) == 1 {
+				if id, ok := x.Args[0].(*ast.Ident); ok {
+					if v := vars[info.Uses[id]]; v != nil && !v.bad {
+						c.Replace(&ast.CallExpr{Fun: ident("int"), Args: []ast.Expr{&ast.BasicLit{Kind: token.INT, Value: fmt.Sprint(v.arr.Len())}}})
+						return false
+					}
+				}
+			}
+		}
+		return true
+	}, nil)
+	declare := func(v *arrVar) []ast.Stmt {
+		var out []ast.Stmt
+		var l, r []ast.Expr
+		for k := int64(0); k < v.arr.Len(); k++ {
+			te, _ := in.typeExpr(v.arr.Elem(), file)
+			spec := &ast.ValueSpec{Names: []*ast.Ident{elem(v, k)}, Type: te}
+			if v.lit != nil && k < int64(len(v.lit.Elts)) {
+				spec.Values = []ast.Expr{v.lit.Elts[k]}
+			}
+			out = append(out, &ast.DeclStmt{Decl: &ast.GenDecl{Tok: token.VAR, Specs: []ast.Spec{spec}}})
+			l = append(l, ident("_"))
+			r = append(r, elem(v, k))
+		}
+		return append(out, &ast.AssignStmt{Lhs: l, Tok: token.ASSIGN, Rhs: r})
+	}
+	astutil.Apply(fd.Body, func(c *astutil.Cursor) bool {
+		if _, isLit := c.Node().(*ast.FuncLit); isLit {
+			return false
+		}
+		if c.Index() < 0 {
+			return true
+		}
+		switch x := c.Node().(type) {
+		case *ast.DeclStmt:
+			for _, v := range vars {
+				if v.stmt == ast.Stmt(x) && !v.bad {
+					for _, s := range declare(v) {
+						c.InsertBefore(s)
+					}
+					c.Delete()
+					return false
+				}
+			}
+		case *ast.AssignStmt:
+			var keepL, keepR []ast.Expr
+			touched := false
+			for i := range x.Lhs {
+				drop := false
+				if x.Tok == token.DEFINE {
+					if id, ok := x.Lhs[i].(*ast.Ident); ok {
+						if v := vars[info.Defs[id]]; v != nil && !v.bad && v.stmt == ast.Stmt(x) {
+							drop = true
+							for _, s := range declare(v) {
+								c.InsertBefore(s)
+							}
+						}
+					}
+				} else if x.Tok == token.ASSIGN && len(x.Lhs) == len(x.Rhs) {
+					if id, ok := x.Rhs[i].(*ast.Ident); ok && blankUse[id] {
+						if v := vars[info.Uses[id]]; v != nil && !v.bad {
+							drop = true
+						}
+					}
+				}
+				if drop {
+					touched = true
+					continue
+				}
+				keepL = append(keepL, x.Lhs[i])
+				if len(x.Lhs) == len(x.Rhs) {
+					keepR = append(keepR, x.Rhs[i])
+				}
+			}
+			if touched {
+				if len(keepL) == 0 {
+					c.Delete()
+					return false
+				}
+				x.Lhs, x.Rhs = keepL, keepR
+			}
+		}
+		return true
+	}, nil)
+	for _, v := range vars {
+		if !v.bad {
+			in.log = append(in.log, fmt.Sprintf("array variable %s of %s split into element variables", v.obj.Name(), fd.Name.Name))
+		}
+	}
+	return n
+}
+
+func constantInt64(tv types.TypeAndValue) (int64, bool) {
+	if tv.Value == nil || tv.Value.Kind() != constant.Int {
+		return 0, false
+	}
+	return constant.Int64Val(tv.Value)
+}
+
+// ---- unrolling of small constant loops over local arrays -----------------------------
+
+// unrollPackage unrolls `for i := range a` / `for i := 0; i < K; i++` (K <= 8)
+// whose body indexes a small local array with i and never assigns i, so that
+// the array can then be split (sroaArrays).  continue/break of the loop become
+// breaks of single-pass wrapper loops.
+func unrollPackage(pk *pkgView, known map[string]bool) (int, []string) {
+	in := &inliner{pkg: pk, known: known, fset: pk.Fset}
+	info := pk.TypesInfo
+	total := 0
+	for _, f := range pk.Syntax {
+		for _, d := range f.Decls {
+			fd, ok := d.(*ast.FuncDecl)
+			if !ok || fd.Body == nil {
+				continue
+			}
+			astutil.Apply(fd.Body, func(c *astutil.Cursor) bool {
+				if c.Index() < 0 {
+					return true
+				}
+				var iv types.Object
+				var n int64
+				var body *ast.BlockStmt
+				switch x := c.Node().(type) {
+				case *ast.RangeStmt:
+					key, ok := x.Key.(*ast.Ident)
+					xid, ok2 := x.X.(*ast.Ident)
+					if !ok || !ok2 || x.Tok != token.DEFINE || x.Value != nil || key.Name == "_" {
+						return true
+					}
+					t := info.TypeOf(xid)
+					if p, isPtr := t.Underlying().(*types.Pointer); isPtr {
+						t = p.Elem()
+					}
+					arr, ok := smallArray(t)
+					if !ok {
+						return true
+					}
+					iv, n, body = info.Defs[key], arr.Len(), x.Body
+				case *ast.ForStmt:
+					init, ok := x.Init.(*ast.AssignStmt)
+					cond, ok2 := x.Cond.(*ast.BinaryExpr)
+					post, ok3 := x.Post.(*ast.IncDecStmt)
+					if !ok || !ok2 || !ok3 || init.Tok != token.DEFINE || len(init.Lhs) != 1 || len(init.Rhs) != 1 || cond.Op != token.LSS || post.Tok != token.INC {
+						return true
+					}
+					id, ok := init.Lhs[0].(*ast.Ident)
+					if !ok || info.Defs[id] == nil {
+						return true
+					}
+					if k, ok := constantInt64(info.Types[init.Rhs[0]]); !ok || k != 0 {
+						return true
+					}
+					cx, ok := cond.X.(*ast.Ident)
+					px, ok2 := post.X.(*ast.Ident)
+					if !ok || !ok2 || info.Uses[cx] != info.Defs[id] || info.Uses[px] != info.Defs[id] {
+						return true
+					}
+					k, ok := constantInt64(info.Types[cond.Y])
+					if !ok || k < 1 || k > 8 {
+						return true
+					}
+					if b, isB := info.Defs[id].Type().Underlying().(*types.Basic); !isB || b.Kind() != types.Int {
+						return true
+					}
+					iv, n, body = info.Defs[id], k, x.Body
+				default:
+					return true
+				}
+				if iv == nil || !in.readOnlyIn(iv, body, true) {
+					return true
+				}
+				// the body indexes a small local array with the loop variable
+				indexes := false
+				good := true
+				ast.Inspect(body, func(m ast.Node) bool {
+					switch y := m.(type) {
+					case *ast.IndexExpr:
+						if aid, ok := y.X.(*ast.Ident); ok {
+							if iid, ok := y.Index.(*ast.Ident); ok && info.Uses[iid] == iv {
+								if v, isVar := info.Uses[aid].(*types.Var); isVar && !v.IsField() && v.Parent() != pk.Types.Scope() {
+									if _, ok := smallArray(v.Type()); ok {
+										indexes = true
+									}
+								}
+							}
+						}
+					case *ast.LabeledStmt:
+						good = false
+					case *ast.BranchStmt:
+						if y.Label != nil || y.Tok == token.GOTO {
+							good = false
+						}
+					}
+					return true
+				})
+				if !indexes || !good {
+					return true
+				}
+				in.seq++
+				outer := fmt.Sprintf("__unr%d", in.seq)
+				var copies []ast.Stmt
+				for j := int64(0); j < n; j++ {
+					lj := fmt.Sprintf("%s_%d", outer, j)
+					lit := &ast.CallExpr{Fun: ident("int"), Args: []ast.Expr{&ast.BasicLit{Kind: token.INT, Value: fmt.Sprint(j)}}}
+					bj := in.substituteCloneNode(body, map[types.Object]ast.Expr{iv: lit}).(*ast.BlockStmt)
+					retarget(bj, outer, lj, false, false)
+					bj.List = append(bj.List, &ast.BranchStmt{Tok: token.BREAK, Label: ident(lj)})
+					copies = append(copies, &ast.LabeledStmt{Label: ident(lj), Stmt: &ast.ForStmt{Body: bj}})
+				}
+				copies = append(copies, &ast.BranchStmt{Tok: token.BREAK, Label: ident(outer)})
+				c.Replace(&ast.LabeledStmt{Label: ident(outer), Stmt: &ast.ForStmt{Body: &ast.BlockStmt{List: copies}}})
+				total++
+				in.log = append(in.log, fmt.Sprintf("loop over %d constant indices unrolled in %s", n, fd.Name.Name))
+				return false
+			}, nil)
+		}
+	}
+	return total, in.log
+}
+
+// retarget: unlabeled break (of the unrolled loop) -> break outer; unlabeled
+// continue -> break inner.  Nested loops own their break/continue; nested
+// switch/select own their break.
+func retarget(n ast.Node, outer, inner string, inLoop, inSwitch bool) {
+	ast.Inspect(n, func(m ast.Node) bool {
+		if m == n {
+			return true
+		}
+		switch x := m.(type) {
+		case *ast.FuncLit:
+			return false
+		case *ast.ForStmt:
+			retarget(x.Body, outer, inner, true, inSwitch)
+			return false
+		case *ast.RangeStmt:
+			retarget(x.Body, outer, inner, true, inSwitch)
+			return false
+		case *ast.SwitchStmt:
+			retarget(x.Body, outer, inner, inLoop, true)
+			return false
+		case *ast.TypeSwitchStmt:
+			retarget(x.Body, outer, inner, inLoop, true)
+			return false
+		case *ast.SelectStmt:
+			retarget(x.Body, outer, inner, inLoop, true)
+			return false
+		case *ast.BranchStmt:
+			if x.Label != nil {
+				return true
+			}
+			if x.Tok == token.BREAK && !inLoop && !inSwitch {
+				x.Label = ident(outer)
+			}
+			if x.Tok == token.CONTINUE && !inLoop {
+				x.Tok, x.Label = token.BREAK, ident(inner)
+			}
+		}
+		return true
+	})
 }
